@@ -284,6 +284,7 @@ void h_mem_splice(void)
 {
     BUILD_CHAIN();
     VIN(int, offset); VIN(int, size);
+    VASSUME(offset >= -16384 && offset <= 16384 && size >= -16384 && size <= 16384);   /* areas are <= 4096 octets: beyond +-16384 nothing new happens */
 #ifdef KF_SPLICE_OVERSIZE
     VASSUME(H_range(g_o.total, offset, size));
 #endif
